@@ -15,7 +15,7 @@ extern "C" {
 #endif
 #define MAXS ASCON_MASKED_MAX_SHARES
 
-static ascon_trng_state_t g_trng; static bool g_trng_ok = false;
+static thread_local ascon_trng_state_t g_trng; static thread_local bool g_trng_ok = false;
 static ascon_trng_state_t *trng() { if (!g_trng_ok) { ascon_trng_init(&g_trng); g_trng_ok = true; } return &g_trng; }
 static void need(int n) { if (n < 2 || n > MAXS) fatal("share count %d not available (max %d)", n, MAXS); }
 
@@ -164,4 +164,16 @@ static void mk_op(const Args &a) {
     ev.b("out", out.get(klen)).n("guard", out.guards_ok()).raw("raw", raw).raw("tape_used", tape_used_json());
     ev.emit();
 }
-void reg_masked() { reg("mw.op", mw_op); reg("mw.free", mw_free); reg("ms.op", ms_op); reg("mk.op", mk_op); }
+#include <ascon/aead-masked.h>
+static void mk_aead(const Args &a) {
+    std::string sc = a.str("scheme"); int id = (int)a.num("obj");
+    bytes_t n = a.hex("n"), ad = a.hex("ad"), m = a.hex("m");
+    settape(a);
+    InBuf nb(n), adb(ad), mb(m); OutBuf out(m.size() + 16); size_t clen = 0;
+    void *k = obj_get(id, sc == "aead80pq" ? "mkey160" : "mkey128").mem;
+    if (sc == "aead128") ascon128_masked_aead_encrypt(out.p, &clen, mb.p, m.size(), adb.p, adb.n, nb.p, (const ascon_masked_key_128_t *)k);
+    else if (sc == "aead128a") ascon128a_masked_aead_encrypt(out.p, &clen, mb.p, m.size(), adb.p, adb.n, nb.p, (const ascon_masked_key_128_t *)k);
+    else ascon80pq_masked_aead_encrypt(out.p, &clen, mb.p, m.size(), adb.p, adb.n, nb.p, (const ascon_masked_key_160_t *)k);
+    Ev ev("mk.aead"); ev.s("scheme", sc).n("obj", id).b("n", n).b("ad", ad).b("m", m).n("clen", (long long)clen).b("out", out.get(m.size() + 16)).n("guard", out.guards_ok()); ev.emit();
+}
+void reg_masked() { reg("mk.aead", mk_aead); reg("mw.op", mw_op); reg("mw.free", mw_free); reg("ms.op", ms_op); reg("mk.op", mk_op); }
